@@ -333,6 +333,28 @@ pub fn run(cx: &mut Cx) {
         ensure!(post == exp, "entry({k}).or_default(): {pre:?} -> {post:?}, spec {exp:?}");
         Ok(())
     });
+    cx.want(&["present", "absent"]).check("indexmap.rs::IndexMap::entry + Entry::or_insert", |rng| {
+        let mut m = gen_map_dq(rng);
+        let pre = obs(&m)?;
+        let k = pick_key(rng, &m);
+        hit(if im_has(&pre, k) { "present" } else { "absent" });
+        let dflt = gen_dq(rng);
+        let nv = gen_dq(rng);
+        {
+            let r = m.entry(k).or_insert(dflt.clone());
+            if im_has(&pre, k) {
+                ensure!(*r == im_get(&pre, k), "or_insert on present key {k}: {r:?} vs {pre:?}");
+            } else {
+                ensure!(*r == dflt, "or_insert on absent key {k}: {r:?}, default {dflt:?}");
+            }
+            if rng.bool() { *r = nv.clone(); }
+        }
+        let post = obs(&m)?;
+        let fin_r = m.get(&k).cloned().ok_or("key absent after or_insert")?;
+        let exp = im_upsert(&pre, k, fin_r);
+        ensure!(post == exp, "entry({k}).or_insert(..): {pre:?} -> {post:?}, spec {exp:?}");
+        Ok(())
+    });
     cx.want(&["present", "absent"]).check("fs_indexset.rs::Entry::or_insert_with", |rng| {
         let mut m = gen_map(rng);
         let pre = obs(&m)?;
